@@ -40,3 +40,24 @@ func init() {
 		verifScenario{"C03/interp.mulConst/post:typed-overflow-rejected", rejected("package main\nconst a int8 = 100\nconst b = a * a\nfunc main() { println(b) }")},
 	)
 }
+
+func init() {
+	rejected := func(src string) func() (bool, string) {
+		return func() (bool, string) {
+			out, err := verifOutput(src)
+			return err == nil, fmt.Sprintf("accepted: output %q, error %v; the Go type checker rejects the program", out, err)
+		}
+	}
+	verifProtocolScenarios = append(verifProtocolScenarios,
+		verifScenario{"C12/interp.itype.assignableTo/post:distinct-defined-types-rejected[defined-from]", rejected("package main\ntype A int\ntype B A\nfunc main() { var a A = 1; var b B = a; println(b) }")},
+		verifScenario{"C12/probe-unrelated", rejected("package main\ntype A int\ntype B int\nfunc main() { var a A = 1; var b B = a; println(b) }")},
+	)
+}
+
+func init() {
+	// C12: an imported source package is initialised before the importer's type error is reported
+	verifProtocolScenarios = append(verifProtocolScenarios, verifScenario{"C12/interp.Interpreter.*", func() (bool, string) {
+		out, err := verifImportThenTypeError()
+		return err != nil && out != "", fmt.Sprintf("Eval returned error %v, but the imported package already printed %q", err, out)
+	}})
+}
